@@ -172,7 +172,7 @@ func GenRecord(r *rng.Rand, n *spec.Node, validPct int, o FrontOpts) any {
 	c := r.Intn(100)
 	if n.Kind == spec.String && len(n.Tests) == 0 && r.Intn(6) == 0 {
 		// text that looks like syntax of some source: quotes, escapes, separators
-		return []string{`"quoted"`, `""`, `'single'`, `a=b&c`, `x;y`, `100%`, `a+b`, `C:\dir`, `{"j":1}`, `[1]`, `$HOME`, `#frag`}[r.Intn(12)]
+		return []string{`"quoted"`, `""`, `'single'`, `a=b&c`, `x;y`, `100%`, `a+b`, `C:\dir`, `{"j":1}`, `[1]`, `$HOME`, `#frag`, "line1\r\nline2", "a\rb\nc\r\n\r\nd", "tab\there", "C:\\"}[r.Intn(16)]
 	}
 	// a whole number for a float field, also one beyond 2^53 (a JSON document carries the digits; a Go map an int)
 	if (n.Kind == spec.Float64 || n.Kind == spec.Float32) && r.Intn(10) == 0 {
